@@ -39,7 +39,7 @@ func init() {
 	register(&Def{
 		ID:          "C03",
 		Technique:   "who-may-call and call-graph rules for the single dispatcher, must-pass-through and dominance rules for the notification barrier, predicate agreement between counter and Done sites, lock-state facts at the barrier wait",
-		Explanation: "Decides: (D1) the inbound queue is FIFO (Add/Pop only), inserted into only by the reader and the stop function, dequeued at one site reachable only from one go statement of the start function, and the batch is prepared right where it is dequeued; (D2) every path through the prepare function calls the barrier function synchronously, which waits for outstanding notifications and then adds exactly the notification count of the counting function, with the server lock definitely released during the wait; (D3) after every handler invocation Done is called exactly when that same task's request is a notification, and Done/Add sites match; (D4) each batch's runner executes in its own goroutine tracked by the lifetime group, never on the dispatcher's own goroutine; (D5) notifications retained at stop are re-queued one original entry at a time, after the queue was walked and cleared.",
+		Explanation: "Decides: (D1) the inbound queue is FIFO (Add/Pop only), inserted into only by the reader and the stop function, dequeued at one site reachable only from one go statement of the start function, and the batch is prepared right where it is dequeued; (D2) every path through the prepare function calls the barrier function synchronously, which waits for outstanding notifications and then adds exactly the notification count of the counting function, with the server lock definitely released during the wait; (D3) after every handler invocation Done is called exactly when that same task's request is a notification, and Done/Add sites match; (D4) each batch's runner executes in its own goroutine tracked by the lifetime group, never on the dispatcher's own goroutine; (D5) notifications retained at stop are re-queued one original entry at a time, after the queue was walked and cleared. Also decided: between the handler's return and the barrier Done there is no test other than whether the request is a notification; every batch taken off the queue is handed to the prepare function.",
 		NotDecided:  []string{"the liveness half (fair scheduling, semaphore progress)", "handlers that re-enter the server beyond 'the lock is released while waiting'"},
 		Assumptions: []string{"sync.WaitGroup semantics", "the queue's Add/Pop are FIFO (mds/queue)"},
 		RuleText:    ruleText,
